@@ -222,7 +222,7 @@ class Scratch:
         self.n += 1
         name = "verif_expr_mod_%d_%d" % (os.getpid(), Scratch.counter)      # a fresh module name for every generated module
         path = os.path.join(self.dir, name + ".py")
-        with open(path, "w") as fh:
+        with open(path, "w", encoding="utf-8") as fh:
             fh.write(src)
         spec = importlib.util.spec_from_file_location(name, path)
         mod = importlib.util.module_from_spec(spec)
@@ -285,7 +285,7 @@ def module_source(cases, glob_src):
         if layout == "oneline":
             lines.append(ind + "@%s(%s%s)" % (deco, lam, extra))
         elif layout == "description":
-            lines.append(ind + "@%s(%s, 'descr %d'%s)" % (deco, lam, i, extra))
+            lines.append(ind + "@%s(%s, 'descr %d of {1, 2} {} {x}'%s)" % (deco, lam, i, extra))
         elif layout == "multiline":
             lines.append(ind + "@%s(" % deco)
             lines.append(ind + "    %s," % lam)
@@ -362,7 +362,7 @@ def parse_message(msg, expr_src):
         lines = lines[1:]
     text = "\n".join(lines)
     descr = None
-    m = re.match(r"^(descr \d+): ", text)
+    m = re.match(r"^(descr \d+)(?: of \{1, 2\} \{\} \{x\})?: ", text)      # (one layout's description contains literal braces)
     if m:
         descr = m.group(1)
         text = text[m.end():]
@@ -439,6 +439,8 @@ def special_value(v):
     if v == "BUILTIN_ALL":
         import builtins
         return builtins.all
+    if v == "NONEFUNC":
+        return _returns_none
     if v == "METHDESC":
         return str.lower
     if v == "SLOTWRAP":
@@ -482,6 +484,11 @@ def special_value(v):
 
 
 _A_LIST = [1, 2, 3]
+
+
+def _returns_none(*args):
+    return None
+
 
 
 class _ModuleSub(type(os)):
